@@ -87,6 +87,7 @@ def clause_sqlite(prog, rep, sch, sites):
                   "sibling snapshots cascaded away by DELETE FROM %s are not saved and re-inserted" % t, d.loc())
     sqlrules.sibling_snapshot_copy(prog, rep, sites, "sql-columns", "rollback/")
     clause_key_representation_sql(prog, rep, snap_s, rest_s)
+    clause_tuple_positions(prog, rep, snap_s, rest_s)
     # 2. column coverage
     for t in S:
         sel = [s for s in snap_s if s.stmt.kind == "SELECT" and s.stmt.table == t]
@@ -249,6 +250,104 @@ def fields_touched(prog, f, adt):
                     out |= set(e[1:] for e in a["p"][1:] if isinstance(e, str) and e.startswith(".") and e[1:] in names)
     return out
 
+
+
+PLUMBING = ("branch", "map_err", "ok", "unwrap", "expect", "unwrap_or_default", "ok_or", "ok_or_else", "into", "from", "clone", "as_ref", "deref", "borrow", "to_owned")
+
+
+def _walk_back(f, local, stop):
+    """follow use / ref / cast copies and Result plumbing backwards from `local`; returns the first thing stop() accepts"""
+    todo, seen = [local], set()
+    while todo:
+        x = todo.pop()
+        if x in seen:
+            continue
+        seen.add(x)
+        for bb, kind, d in f.defs().get(x, []):
+            r = stop(kind, d)
+            if r is not None:
+                return r
+            if kind == "stmt" and d.get("k") in ("use", "ref", "cast") and d["o"] and "p" in d["o"][0]:
+                todo.append(d["o"][0]["p"][0])
+            elif kind == "call" and d.name in PLUMBING and d.args and "p" in d.args[0]:
+                todo.append(d.args[0]["p"][0])
+    return None
+
+
+def clause_tuple_positions(prog, rep, snap_s, rest_s, rule="sql-columns", only=None, floor=3):
+    """a table's rows travel through the snapshot as a serialised tuple: the writer puts the column it read with row.get(i) at tuple
+    position j, the reader binds tuple position j to a column of its INSERT.  Per table and position the two columns are the same
+    (two same-typed neighbours swapped in one of the two places restore a value into the other's column)"""
+    n = 0
+    for t in sorted(set(x.stmt.table for x in snap_s if x.stmt.kind == "SELECT" and x.stmt.table and x.stmt.table != SNAP)):
+        if only is not None and t not in only:
+            continue
+        # writer: position -> column
+        wmap = {}
+        for x in snap_s:
+            if x.stmt.kind != "SELECT" or x.stmt.table != t:
+                continue
+            f = x.fn
+            cols = [c.split(".")[-1] for c in x.stmt.select_cols]
+            for bb, st in f.stmts():
+                if st.get("k") != "tuple" or len(st.get("o", [])) < 2:
+                    continue
+                ar = len(st["o"])
+                for j, o in enumerate(st["o"]):
+                    if "p" not in o:
+                        continue
+                    def stop(kind, d):
+                        if kind == "call" and d.name == "get" and len(d.args) >= 2 and isinstance(d.args[1].get("c"), dict) and isinstance(d.args[1]["c"].get("int"), int):
+                            return d.args[1]["c"]["int"]
+                        return None
+                    i = _walk_back(f, o["p"][0], stop)
+                    if i is not None and i < len(cols):
+                        wmap.setdefault((ar, j), set()).add(cols[i])
+        # reader: position -> column
+        rmap = {}
+        for x in rest_s:
+            if x.stmt.kind != "INSERT" or x.stmt.table != t:
+                continue
+            f = x.fn
+            for l in bound_param_locals(f, x):
+                arr = _walk_back(f, l, lambda kind, d: d if (kind == "stmt" and d.get("k") == "array") else None)
+                if not arr:
+                    continue
+                # the k-th bound parameter belongs to the column whose VALUES entry is the k-th placeholder (literals such as the
+                # provider version take no parameter)
+                vals = x.stmt.values or ["?"] * len(x.stmt.columns)
+                ph_cols = [c for c, v in zip(x.stmt.columns, vals) if "?" in v]
+                for k, o in enumerate(arr.get("o", [])):
+                    if "p" not in o or k >= len(ph_cols):
+                        continue
+                    def stop2(kind, d):
+                        if kind == "stmt" and d.get("k") == "use" and d["o"] and "p" in d["o"][0]:
+                            pl = d["o"][0]["p"]
+                            idx = [e for e in pl[1:] if isinstance(e, str) and e.startswith(".") and e[1:].isdigit()]
+                            if len(pl) == 2 and idx:
+                                ty = str(f.locals[pl[0]]) if pl[0] < len(f.locals) else ""
+                                depth, ar = 0, 1
+                                for ch in ty.strip()[1:-1] if ty.strip().startswith("(") else "":
+                                    depth += {"(": 1, "<": 1, "[": 1, ")": -1, ">": -1, "]": -1}.get(ch, 0)
+                                    if ch == "," and depth == 0:
+                                        ar += 1
+                                if ty.strip().endswith(",)"):
+                                    ar -= 1
+                                return (ar, int(idx[0][1:]))
+                        return None
+                    j = _walk_back(f, o["p"][0], stop2)
+                    if j is not None:
+                        rmap.setdefault(j, set()).add(ph_cols[k])
+        common = sorted(set(wmap) & set(rmap))
+        if not common:
+            continue
+        n += 1
+        bad = [(j[1], sorted(wmap[j]), sorted(rmap[j])) for j in common if wmap[j] != rmap[j]]
+        rep.check(not bad, rule, "snapshot-restore/%s/tuple-positions-agree" % t,
+                  "the %d tuple positions of a %s row carry the same column in the snapshot writer and in the restore" % (len(common), t),
+                  "%s: tuple position(s) %s are written from one column and restored into another (%s): a rollback puts a value into the wrong "
+                  "column" % (t, [b[0] for b in bad], "; ".join("position %d: written from %s, restored into %s" % b for b in bad)))
+    rep.floor(rule, "tables whose rows travel through the snapshot as a serialised tuple", n, floor)
 
 
 def clause_index_leaves_with_record(prog, rep, rule):
